@@ -523,6 +523,74 @@ def fanout_skeleton(repo):
     return fan, obs, unobs, setd
 
 
+def flat_block(src, nodes, depth, out):
+    """statement-level text of a block, whitespace-free, one entry per statement / control header: `<depth>:<text>`"""
+    for nd in nodes:
+        if nd.kind == "stmt":
+            out.append("%d:%s" % (depth, norm(nd.head)))
+        elif nd.ctl == "plain":
+            out.append("%d:{" % depth)
+            flat_block(src, nd.children, depth + 1, out)
+        else:
+            out.append("%d:%s%s" % (depth, nd.ctl.replace(" ", ""), "(" + norm(nd.cond) + ")" if nd.cond is not None else ""))
+            body = nd.children[0]
+            if body.kind == "block" and body.ctl == "plain":
+                flat_block(src, body.children, depth + 1, out)
+            else:
+                flat_block(src, [body], depth + 1, out)
+    return out
+
+
+def delivery_facts(repo):
+    """Transport-level delivery around a close (Model/CloseDeliver.lean): step 6 of the close handler and the first critical
+    section of setReadMode, statement by statement, plus the two variant flags the model is instantiated with."""
+    src = read(repo, TIM)
+    m = re.search(r"cbs\s*\.\s*onClose\s*=\s*\[this\]\s*\([^)]*\)\s*\{", src)
+    if not m:
+        raise TranslateError("transport_impl.hpp: cbs.onClose lambda not found in setupEngineCallbacks")
+    ob = m.end() - 1
+    cb = cxxscan.match_brace(src, ob)
+    top = parse_seq(src, ob + 1, cb)
+    blocks = [nd for nd in top if nd.kind == "block" and nd.ctl == "plain" and
+              re.search(r"receiveBuffers\s*\.\s*find\s*\(\s*sid\s*\)", src[nd.start:nd.end])]
+    if len(blocks) != 1:
+        raise TranslateError("cbs.onClose: expected exactly one top-level block that looks up receiveBuffers (step 6), found %d" % len(blocks))
+    step6 = flat_block(src, blocks[0].children, 0, [])
+    if not step6 or not re.match(r"0:std::lock_guard<std::mutex>lk\(syncMutex\);$", step6[0]):
+        raise TranslateError("cbs.onClose step 6: the block does not start by taking syncMutex")
+    erases = [x for x in step6 if re.search(r"readModes\.erase\(", x)]
+    if not erases:
+        raise TranslateError("cbs.onClose step 6: no readModes.erase found")
+    erase_always = erases == ["0:readModes.erase(sid);"]
+    # readModes is touched nowhere else in the handler
+    if len(re.findall(r"\breadModes\b", src[ob:cb])) != len(re.findall(r"\breadModes\b", src[blocks[0].start:blocks[0].end])):
+        raise TranslateError("cbs.onClose: readModes is used outside step 6")
+    # ---- setReadMode: statements up to and including the first syncMutex section
+    try:
+        body = cxxscan.function_body(src, "setReadMode")
+    except cxxscan.ScanError as e:
+        raise TranslateError("Transport::setReadMode: %s" % e)
+    seq = parse_seq(body, 0, len(body))
+    first = None
+    for i, nd in enumerate(seq):
+        if nd.kind == "block" and nd.ctl == "plain" and re.search(r"lock_guard<std::mutex>\s+lk\s*\(\s*_impl->syncMutex\s*\)", body[nd.start:nd.end]):
+            first = i
+            break
+    if first is None:
+        raise TranslateError("Transport::setReadMode: first syncMutex section not found")
+    entry = flat_block(body, seq[:first + 1], 0, [])
+    sec = flat_block(body, seq[first].children, 0, [])
+    # tombstone guard (FC02a): directly after the lock, before readModes is read or written; a vacuous success
+    guard = False
+    if len(sec) >= 4 and re.match(r"0:auto(\w+)=_impl->receiveBuffers\.find\(sid\);$", sec[1]):
+        v = re.match(r"0:auto(\w+)=", sec[1]).group(1)
+        if sec[2] == "0:if(%s!=_impl->receiveBuffers.end()&&%s->second->closed)" % (v, v) and sec[3] == "1:returntrue;":
+            guard = True
+    if not guard and any("closed" in x for x in sec):
+        raise TranslateError("Transport::setReadMode: unrecognised use of the closed flag in the first critical section")
+    return step6, erase_always, entry, guard
+
+
 def peer_erase_guarded(src, fn, what):
     body = cxxscan.function_body(src, fn)
     m = re.search(r"_peerIndex\s*\.\s*erase\s*\(", body)
@@ -606,5 +674,14 @@ def gen(repo):
     t += "/-- order of the Transport-level close handler (transport_impl.hpp, cbs.onClose) -/\n"
     t += "def fanout : List String := %s\n" % lean_list(fan)
     t += "def observe : List String := %s\ndef unobserve : List String := %s\ndef setSessionData : List String := %s\n" % (lean_list(obs), lean_list(unobs), lean_list(setd))
+    step6, erase_always, entry, guard = delivery_facts(repo)
+    t += "/-- step 6 of the Transport close handler (the syncMutex block that closes the receive buffer or leaves a tombstone), statement by\nstatement with nesting depth -/\n"
+    t += "def closeStep6 : List String := [\n  %s]\n" % ",\n  ".join('"%s"' % x.replace("\\", "\\\\").replace('"', '\\"') for x in step6)
+    t += "/-- `readModes.erase(sid)` is the only use of readModes in the handler and sits at the top level of step 6 (unconditional) -/\n"
+    t += "def closeErasesModeAlways : Bool := %s\n" % str(erase_always).lower()
+    t += "/-- Transport::setReadMode from its first statement to the end of its first syncMutex section -/\n"
+    t += "def setReadModeEntry : List String := [\n  %s]\n" % ",\n  ".join('"%s"' % x.replace("\\", "\\\\").replace('"', '\\"') for x in entry)
+    t += "/-- setReadMode returns (true, no effect) for a closed tombstone before it reads or writes readModes (repair FC02a) -/\n"
+    t += "def setReadModeRefusesTombstone : Bool := %s\n" % str(guard).lower()
     t += "end Iora.Gen.CloseSites\n"
     return "IoraModel/Gen/CloseSites.lean", t
